@@ -433,14 +433,17 @@ StepBlkSend1(ln) ==
       \* account (from_app_msgs) nothing was taken from the application, so nothing of it will reach the peer
       took == ~Stream(tp) /\ ln.rty = 0 /\ ln.ret = -1 /\ ln.err = EINTR /\ ln.c[e][1] # -1 /\ hist[e].pc[1] # -1
               /\ ln.c[e][6] > hist[e].pc[6]
+      \* (byte stream: mi = 1 says that the peer had read bytes of this buffer while the call was in progress;
+      \* a call that then reports -1 has put bytes of a failed call into the stream, C02 as well as C03)
       all == hcs \o <<Chk(~(ln.ret = -1 /\ ln.mi = 1), "C03.delivered_failed", 0, ln.mi),
+                      Chk(~(Stream(tp) /\ ln.ret = -1 /\ ln.mi = 1), "C02.failed_in_stream", 0, ln.mi),
                       Chk(~took, "C01.failed_accepted", <<"from_app_msgs", hist[e].pc[6]>>, ln.c[e][6])>>
              \o (IF mm THEN <<>> ELSE mcs)
   IN /\ Report(ln, all)
      /\ eps' = [eps EXCEPT ![e] = IF judged /\ ~mm THEN UpdB(CondFromEm(res.ep, ln.em[e])) ELSE @]
      /\ hist' = [hist EXCEPT ![e] = IF ln.ret = -2 THEN @ ELSE HistNext(ls, e)]
      \* a blocking send that failed with the connection, was interrupted or hung: the model part stops here
-     /\ mm' = (mm \/ ~judged \/ IsMM(all) \/ \E i \in 1..Len(all) : ~all[i].c /\ i > Len(hcs) + 2)
+     /\ mm' = (mm \/ ~judged \/ IsMM(all) \/ \E i \in 1..Len(all) : ~all[i].c /\ i > Len(hcs) + 3)
      /\ nv' = nv + Len(Failed(all))
      /\ UNCHANGED <<frames, nrcv>> /\ Keep
 
